@@ -247,16 +247,15 @@ def run(ctx, prog, S, M, explicit):
     ctx.rule("R10.card", "overrides of get_or_add_x test for presence before adding; choice-group removers cover "
                          "exactly the declared members; choice members are mutually exclusive in the schema")
     for c in M.oxml_classes():
+        for name, fi in sorted(c.methods.items()):
+            if name.startswith("get_or_add_"):
+                key = "%s.%s" % (c.name, name)
+                if _override_guarded(fi, name[len("get_or_add_"):]):
+                    ctx.ok("R10.card", key, sample={"override": fi.fq, "guard": "presence test / delegation"})
+                else:
+                    ctx.violation("R10.card", key, "hand-written get_or_add adds a child without testing that "
+                                  "none is present", file=fi.file, line=fi.line)
         for d in M.own_decls(c)[0]:
-            if d.kind == "ZeroOrOne":
-                fi = c.methods.get("get_or_add_" + d.prop)
-                if fi is not None:
-                    key = "%s.get_or_add_%s" % (c.name, d.prop)
-                    if _override_guarded(fi, d.prop):
-                        ctx.ok("R10.card", key, sample={"override": fi.fq, "guard": "presence test"})
-                    else:
-                        ctx.violation("R10.card", key, "override adds a child without testing that none is present",
-                                      file=fi.file, line=fi.line)
             if d.kind == "ZeroOrOneChoice":
                 key = "%s.%s" % (c.name, d.prop)
                 fi = c.methods.get("_remove_" + d.prop)
@@ -277,6 +276,27 @@ def run(ctx, prog, S, M, explicit):
                                 n += 1
                                 if R.accepts([a, b]) or R.accepts([b, a]):
                                     bad = (S.tname(tq), S.pfx(a), S.pfx(b))
+                # the declared group must cover the whole schema choice, else 'change to' leaves the
+                # undeclared member in place next to the new one
+                uncovered = None
+                for t in M.tags_for_class(c) or tags_of_classes(prog, M, [c]):
+                    for tq in complex_types_for(S, prog.qn(t)):
+                        names = [prog.qn(x) for x in d.tags if prog.qn(x) in S.alphabet(tq)]
+                        if not names:
+                            continue
+                        ch = _find_choice(S, S.model(tq), names)
+                        if ch is None:
+                            uncovered = (S.tname(tq), "members are not alternatives of one schema choice")
+                            continue
+                        miss = [S.pfx(e.name) for e in S.iter_elems(ch) if e.name not in names]
+                        n += 1
+                        if miss:
+                            uncovered = (S.tname(tq), "schema alternatives not in the group: %s" % ", ".join(miss))
+                if uncovered and not bad:
+                    ctx.violation("R10.card", key, "choice group does not match the schema choice in %s: %s "
+                                  "('change to' / group remover would leave two members)" % uncovered,
+                                  file=c.file, line=d.line)
+                    continue
                 if bad:
                     ctx.violation("R10.card", key, "choice group members %s and %s can co-occur in %s: "
                                   "'change to' would wrongly remove a legitimate sibling" % (bad[1], bad[2], bad[0]),
@@ -284,6 +304,21 @@ def run(ctx, prog, S, M, explicit):
                 else:
                     ctx.ok("R10.card", key, sample={"group": d.prop, "members": d.tags, "pairs_checked": n},
                            nontrivial=n > 0)
+
+
+def _find_choice(S, p, names):
+    best = None
+
+    def walk(q):
+        nonlocal best
+        if q.kind == "choice" and set(names) <= {e.name for e in S.iter_elems(q)}:
+            best = q
+        for i in q.items:
+            walk(i)
+
+    if p is not None:
+        walk(p)
+    return best
 
 
 def _first_index(v, succ, semantics):
@@ -301,8 +336,9 @@ def _override_guarded(fi, prop):
     """Every adding call in the override is dominated by an `is None` test on the child."""
     adds = []
     for n in ast.walk(fi.node):
-        if isinstance(n, ast.Call) and isinstance(n.func, ast.Attribute) and (
-                n.func.attr in ("_add_" + prop, "_insert_" + prop, "append", "insert", "insert_element_before")):
+        if isinstance(n, ast.Call) and isinstance(n.func, ast.Attribute) and dotted(n.func.value) == "self" and (
+                n.func.attr.startswith(("_add_", "_insert_")) or
+                n.func.attr in ("append", "insert", "insert_element_before")):
             adds.append(n)
     if not adds:
         return True
@@ -315,9 +351,15 @@ def _override_guarded(fi, prop):
                 for st in n.body:
                     for c in ast.walk(st):
                         guarded.add(id(c))
-            if isinstance(t, ast.Compare) and len(t.ops) == 1 and isinstance(t.ops[0], ast.IsNot) and \
-                    isinstance(t.comparators[0], ast.Constant) and t.comparators[0].value is None:
-                # if x is not None: return x ; <add>
+            if isinstance(t, ast.UnaryOp) and isinstance(t.op, ast.Not) and isinstance(t.operand, ast.Name):
+                # if not matches: <add>
+                for st in n.body:
+                    for c in ast.walk(st):
+                        guarded.add(id(c))
+            if (isinstance(t, ast.Compare) and len(t.ops) == 1 and isinstance(t.ops[0], ast.IsNot) and
+                    isinstance(t.comparators[0], ast.Constant) and t.comparators[0].value is None) or \
+                    isinstance(t, ast.Name):
+                # if x is not None: return x ; <add>      /     if matches: return matches[0] ; <add>
                 if any(isinstance(s, ast.Return) for s in n.body):
                     body = fi.node.body
                     if n in body:
